@@ -683,7 +683,19 @@ func checkDonePoll(c *Ctx, r *Report, cl *classes) {
 		r.Anchor("C07/K6", "(*channel.Channel).Close")
 	} else {
 		nOffer := 0
-		for _, f := range append([]*ssa.Function{chClose}, AnonFuncsDeep(chClose)...) {
+		scope := append([]*ssa.Function{chClose}, anonFuncsWithHelpers(chClose)...)
+		for _, ci := range callInstrs(chClose) {
+			// the stop request written as an unexported method of the package
+			if h := ci.Common().StaticCallee(); h != nil && h.Pkg == chClose.Pkg && h.Object() != nil && !h.Object().Exported() && len(h.Blocks) > 0 {
+				scope = append(scope, h)
+			}
+		}
+		seenFn := map[*ssa.Function]bool{}
+		for _, f := range scope {
+			if seenFn[f] {
+				continue
+			}
+			seenFn[f] = true
 			for _, op := range chanOpsOf(f) {
 				if op.Field != doneF || (op.Kind != "send" && op.Kind != "select-send") {
 					continue
